@@ -36,6 +36,64 @@ def check(run, repo, tier):
   r1_key_normalisation(run, w)
   r2_index_maintenance(run, w)
   r3_lookup_one(run, w)
+  r4_no_captured_columns(run, w)
+
+
+def r4_no_captured_columns(run, w):
+  """Sort keys must resolve their columns when they are built: a Column object captured in the
+  key class outlives the column (ModifyColumn / RemoveColumn+undo replace the object), and a
+  destroyed column reads as all-defaults, silently degrading every order to row-id order."""
+  R4 = run.rule("C13-R4", "make_sort_key captures column ids, not Column objects; SortKey looks "
+                "the column up at construction time", floor=2)
+  mk = w.fn("sort_key.make_sort_key")
+  tparam = mk.fi.params()[0]
+  # names bound (directly or as tuple parts appended to a list) to <table>.get_column(...)
+  colvars = set()
+  for n in ast.walk(mk.node):
+    if isinstance(n, ast.FunctionDef) and n is not mk.node:
+      continue
+  body_nodes = [x for s_ in mk.node.body if not isinstance(s_, ast.ClassDef)
+                for x in ast.walk(s_)]
+  for n in body_nodes:
+    if isinstance(n, ast.Assign) and isinstance(n.value, ast.Call) and \
+        isinstance(n.value.func, ast.Attribute) and n.value.func.attr == "get_column":
+      for t in n.targets:
+        if isinstance(t, ast.Name):
+          colvars.add(t.id)
+  captured = set()
+  for n in body_nodes:
+    if isinstance(n, ast.Call) and isinstance(n.func, ast.Attribute) and \
+        n.func.attr in ("append", "extend", "add") and isinstance(n.func.value, ast.Name):
+      names = {x.id for a in n.args for x in ast.walk(a) if isinstance(x, ast.Name)}
+      has_call = any(isinstance(x, ast.Call) and isinstance(x.func, ast.Attribute) and
+                     x.func.attr == "get_column" for a in n.args for x in ast.walk(a))
+      if names & colvars or has_call:
+        captured.add(n.func.value.id)
+  classes = [s_ for s_ in mk.node.body if isinstance(s_, ast.ClassDef)]
+  if len(classes) != 1:
+    raise AnalysisError("make_sort_key: expected exactly one nested key class")
+  used = {x.id for x in ast.walk(classes[0]) if isinstance(x, ast.Name)}
+  bad = sorted((colvars | captured) & used)
+  run.ob(R4, mk.qualname, "closure of %s uses: %s" % (classes[0].name,
+                                                     ", ".join(sorted(used & (captured | colvars |
+                                                                              {tparam, "col_sort_spec"})))),
+         "the key class does not hold Column objects created before the next schema change",
+         not bad, witness=("captured column objects: " + ", ".join(bad)) if bad else None,
+         fi=mk.fi)
+  init = w.fn("sort_key.make_sort_key.SortKey.__init__")
+  ok = any(isinstance(c.func, ast.Attribute) and c.func.attr == "get_cell_value" and
+           isinstance(c.func.value, ast.Call) and isinstance(c.func.value.func, ast.Attribute) and
+           c.func.value.func.attr == "get_column" and text(c.func.value.func.value) == tparam
+           for c in ast.walk(init.node) if isinstance(c, ast.Call))
+  run.ob(R4, init.qualname, "%s.get_column(col_id).get_cell_value(row_id)" % tparam,
+         "sort values are read from the table's current column object", ok, fi=init.fi)
+  # missing sort columns are still reported when the helper column is created
+  sc = w.fn("lookup.SortedLookupMapColumn.__init__")
+  ok = any(isinstance(n, ast.Raise) for n in ast.walk(sc.node)) and \
+      any(isinstance(c, ast.Call) and isinstance(c.func, ast.Attribute) and
+          c.func.attr == "has_column" for c in ast.walk(sc.node))
+  run.ob(R4, sc.qualname, "if not table.has_column(c): raise KeyError", "a sorted lookup over a "
+         "missing column fails loudly", ok, fi=sc.fi, nontrivial=False)
 
 
 def _is_extract(call):
@@ -456,6 +514,12 @@ LK = "sandbox/grist/lookup.py"
 TB = "sandbox/grist/table.py"
 RC = "sandbox/grist/records.py"
 VARIANTS = [
+  ("sort-key-captures-column-objects", "sandbox/grist/sort_key.py", """    table.get_column(col_id)
+    col_sort_spec.append((col_id, sign))
+""", """    col_obj = table.get_column(col_id)
+    col_sort_spec.append((col_obj, sign))
+""", "C13-R4"),
+
   # known realistic breakage (seeded)
   ("unhashable-key-keeps-old-index-entry", LK,
    """    except TypeError:
